@@ -34,7 +34,7 @@ REQUIRED_MONITORS = ["add-outcome", "forest-after-call", "invariant-walk", "look
 KINDS = ["valid", "valid", "valid", "dup-id", "foreign-arch", "foreign-arch-first-child", "misaligned-uid", "bad-id", "cycle", "readd",
          "cycle-respelled"]
 CLASS_FLOORS = dict(("op-" + k, 10) for k in set(KINDS))
-CLASS_FLOORS.update({"depth-3": 10, "dashed-top": 5, "after-reload": 10, "query-recursive": 50, "query-arch-nobody-has": 20,
+CLASS_FLOORS.update({"ten-or-more-siblings": 10, "depth-3": 10, "dashed-top": 5, "after-reload": 10, "query-recursive": 50, "query-arch-nobody-has": 20,
                      "query-arch-src": 20, "query-types-subset": 50, "query-self": 10, "query-inner": 20,
                      "child-id-repeats-ancestor-id": 3, "refused": 30, "accepted": 30})
 ARCHES = ["x86_64", "i386", "aarch64", "ppc64le", "s390x"]
@@ -119,7 +119,17 @@ def gen_history(rng):
     F = Forest()
     ops = []
     n = rng.randint(5, 25)
+    # one history in six is WIDE: a dozen and more siblings with numbered ids ('10' sorts before '9' as text, and
+    # get_variants orders by UID as text)
+    wide = rng.random() < 0.17
+    pool = ["A", "B", "C", "D", "E", "Server", "optional", "x1", "0"]
+    if wide:
+        stem = rng.choice(["", "V", "v0"])
+        pool = ["%s%d" % (stem, k) for k in range(1, 16)]
+        n = rng.randint(30, 45)
     kinds_cycle = list(KINDS)
+    if wide:
+        kinds_cycle = kinds_cycle + ["valid"] * len(kinds_cycle)
     rng.shuffle(kinds_cycle)
     ki = 0
     uids = set()
@@ -128,8 +138,8 @@ def gen_history(rng):
         par = None if target is None else F.specs[target]
         used = set(F.specs[c]["id"] for c in F.children(target))
         for _ in range(50):
-            vid = rng.choice(["A", "B", "C", "D", "E", "Server", "optional", "x1", "0"])
-            if par is not None and rng.random() < 0.25:
+            vid = rng.choice(pool)
+            if par is not None and rng.random() < (0.25 if not wide else 0.05):
                 vid = rng.choice([F.specs[a]["id"] for a in F.ancestors_or_self(target)])    # child id repeating an ancestor's id
                 if "-" in vid or not vid.isalnum():
                     continue
@@ -211,10 +221,14 @@ def gen_history(rng):
         if not cands:
             kind = "valid"
             cands = [None]
-        if len(attached) >= 7 and kind == "valid":
+        if len(attached) >= (7 if not wide else 22) and kind == "valid":
             continue
         target = rng.choice(cands)
-        if kind == "valid" and attached and rng.random() < 0.7:
+        if wide and kind == "valid":
+            # keep filling the same one or two containers
+            inner = [c for c in cands if c is not None]
+            target = None if (not inner or rng.random() < 0.5) else inner[0]
+        elif kind == "valid" and attached and rng.random() < 0.7:
             deeper = [c for c in cands if c is not None]
             if deeper:
                 target = rng.choice(deeper)
@@ -234,7 +248,7 @@ def gen_history(rng):
         if verdict == "accept":
             F.apply(target, h)
             uids.add(spec["uid"])
-    return {"specs": F.specs, "ops": ops}
+    return {"specs": F.specs, "ops": ops, "wide": wide}
 
 
 # ---- real side ------------------------------------------------------------------
@@ -497,6 +511,11 @@ def check_history(ctx, pm, H, seed, exhaustive_queries=False):
     snap = F.snapshot()
     if any(d["parent"] and snap[d["parent"]]["parent"] for d in snap.values()):
         ctx.count("depth-3")
+    sibs = {}
+    for d in snap.values():
+        sibs[d["parent"]] = sibs.get(d["parent"], 0) + 1
+    if sibs and max(sibs.values()) >= 10:
+        ctx.count("ten-or-more-siblings")
     if any(s.get("dashed") for hh, s in enumerate(F.specs) if hh in F.parent):
         ctx.count("dashed-top")
     for hh in F.parent:
